@@ -211,6 +211,9 @@ func c04Gen(t *rapid.T, tier Tier) interface{} {
 		if c.Num < 0 && (c.Target == "padding-left" || c.Target == "width" || c.Target == "border-spacing" || c.Target == "line-height") {
 			c.Num = -c.Num
 		}
+		if c.Target == "line-height" && rapid.IntRange(0, 2).Draw(t, "lhpercent") == 0 {
+			c.Unit = "%" // a percentage of the element's own font size: computes to a length, inherited as such
+		}
 	default:
 		c.Kind = "allprops"
 		c.Seed = rapid.IntRange(1, 1<<20).Draw(t, "orderseed")
@@ -452,12 +455,15 @@ func c04Units(c *C04Case) Verdict {
 		return "font-family:Ahem;font-size:" + fs
 	}
 	probe := fmt.Sprintf("%s:%g%s", c.Target, c.Num, c.Unit)
+	if c.Unit == "%" {
+		probe = fmt.Sprintf("%s:%g%%", c.Target, c.Num*100)
+	}
 	var doc string
 	if c.OnRoot {
 		doc = `<!DOCTYPE html><html id="probe" style="` + decl(c.RootFS) + `;` + probe + `"><body></body></html>`
 		labels = append(labels, "on-root")
 	} else {
-		doc = `<!DOCTYPE html><html style="` + decl(c.RootFS) + `"><body style="` + decl(c.ParentFS) + `"><x-el id="probe" style="` + decl(c.OwnFS) + `;` + probe + `"></x-el></body></html>`
+		doc = `<!DOCTYPE html><html style="` + decl(c.RootFS) + `"><body style="` + decl(c.ParentFS) + `"><x-el id="probe" style="` + decl(c.OwnFS) + `;` + probe + `"><x-el id="kid" style="font-size:30px"></x-el></x-el></body></html>`
 	}
 	_, sf, byID, err := c04Styles(doc)
 	if err != nil {
@@ -482,7 +488,7 @@ func c04Units(c *C04Case) Verdict {
 		want = c.Num * rootFS
 	case "ex":
 		want = c.Num * own * 0.8
-	case "ch":
+	case "ch", "%":
 		want = c.Num * own
 	default:
 		want = c.Num * c04AbsRatio[c.Unit]
@@ -504,7 +510,26 @@ func c04Units(c *C04Case) Verdict {
 	if math.Abs(gotV-want) > 1e-4*math.Max(1, math.Abs(want)) {
 		return Viol("units:"+c.Unit, "%s:%g%s with font-size %g px (root %g px) computed to %v px, expected %v px\n%s", c.Target, c.Num, c.Unit, own, rootFS, gotV, want, doc)
 	}
-	nt := c.Unit == "em" || c.Unit == "rem" || c.Unit == "ex" || c.Unit == "ch" || strings.ContainsAny(c.OwnFS+c.ParentFS+c.RootFS, "%mrxh")
+	// the computed value is what a child inherits: a child with another font size has the same length
+	switch c.Target {
+	case "text-indent", "letter-spacing", "word-spacing", "border-spacing", "line-height":
+		if kid, ok := byID["kid"]; ok && !c.OnRoot {
+			kv := sf.Get(kid, "").Get(pr.PropKey{KnownProp: pr.PropsFromNames[c.Target]})
+			var kidV float64
+			var kidUnit pr.Unit
+			switch v := kv.(type) {
+			case pr.DimOrS:
+				kidV, kidUnit = float64(v.Value), v.Unit
+			case pr.Point:
+				kidV, kidUnit = float64(v[0].Value), v[0].Unit
+			}
+			labels = append(labels, "inherited-by-child")
+			if kidUnit != gotUnit || math.Abs(kidV-gotV) > 1e-4*math.Max(1, math.Abs(gotV)) {
+				return Viol("units:inherited:"+c.Target, "%s computes to %v on the element and to %v (unit %v) on its child of font-size 30px, which inherits it\n%s", probe, got, kv, kidUnit, doc)
+			}
+		}
+	}
+	nt := c.Unit == "em" || c.Unit == "rem" || c.Unit == "ex" || c.Unit == "ch" || c.Unit == "%" || strings.ContainsAny(c.OwnFS+c.ParentFS+c.RootFS, "%mrxh")
 	return Verdict{NonTrivial: nt, Labels: labels}
 }
 
